@@ -529,7 +529,7 @@ func runReq(c *ctx, in Input) {
 		lib.Fatalf("request %s %s: %s", in.Req.Method, in.Req.Target, obs.Err)
 	}
 	gone := ""
-	if mr.path == "/channel/delete" && obs.Status == 200 {
+	if mr.path == "/channel/delete" && obs.Status == 200 && in.Req.Method == "POST" {
 		if t, ok := qval(mr.pairs, "topic"); ok && strings.HasSuffix(t, "#ephemeral") {
 			gone = t
 		}
@@ -537,6 +537,9 @@ func runReq(c *ctx, in Input) {
 	post, okPost := settle(d, gone)
 	if !okPre || !okPost {
 		c.count("unsettled")
+		if os.Getenv("HTTPDRIVE_DEBUG") != "" {
+			fmt.Fprintf(os.Stderr, "unsettled %s pre=%v post=%v %s %s\n  pre=%+v\n  post=%+v\n", in.Name, okPre, okPost, in.Req.Method, in.Req.Target, pre, post)
+		}
 	}
 	exact := mr.ascii && in.Req.Method != "CONNECT"
 	coq := fmt.Sprintf("(J10.Req %s %s %s %s %s %s %s)", coqCfg(in.TLS), coqState(pre), mr.coq, lib.CoqBool(exact),
